@@ -310,7 +310,13 @@ def _returns_kind(cls, fn, what):
             if isinstance(v, ast.Constant) and v.value is None:
                 continue
             if isinstance(v, ast.Call) and isinstance(v.func, ast.Attribute) and v.func.attr in ("copy", "deepcopy"):
-                kinds.add("copy")
+                deep = [kw.value for kw in v.keywords if kw.arg == "deep"] + (list(v.args[:1]) if v.func.attr == "copy" else [])
+                if deep and not (isinstance(deep[0], ast.Constant) and deep[0].value is True):
+                    # copy(deep=False) (or a deep flag that is not literally True): a new frame object over the SAME value
+                    # buffers.  Copy-on-write keeps pandas-level writes apart; a write through numpy goes through
+                    kinds.add("shallow")
+                else:
+                    kinds.add("copy")
             elif is_self_attr(v) or isinstance(v, ast.Name):
                 kinds.add("alias")
             else:
@@ -319,6 +325,8 @@ def _returns_kind(cls, fn, what):
         return "copy"
     if "alias" in kinds:
         return "alias"
+    if kinds and kinds <= {"copy", "shallow"}:
+        return "shallow"
     raise Unrecognised("%s.%s: no return recognised" % (cls.__name__, what))
 
 
@@ -547,8 +555,8 @@ def coq_text(fl):
         acc = c["accessors"]
         others = [k for n, k in acc.items() if n not in ("df", "billing_df")]
         rows.append("  (%s, {| init_writes_arg := %s; series_writes_arg := %s;\n        handout_copies := fun a => match a with ADf => %s | ABillingDf => %s | AOther => %s end |})  (* %s: %s *)" % (
-            tag, b(c["init_writes_arg"]), b(c["series_writes_arg"]), b(acc["df"] == "copy"),
-            b(acc.get("billing_df", "copy") == "copy"), b(all(k == "copy" for k in others)), name,
+            tag, b(c["init_writes_arg"]), b(c["series_writes_arg"]), b(acc["df"] in ("copy", "shallow")),
+            b(acc.get("billing_df", "copy") in ("copy", "shallow")), b(all(k in ("copy", "shallow") for k in others)), name,
             ", ".join("%s %s" % (n, k) for n, k in sorted(acc.items()))))
     lines.append(";\n".join(rows))
     lines.append("].")
